@@ -144,6 +144,29 @@ func runC20(env *Env, data map[string]any) *Outcome {
 			}
 		}
 	}
+	// with the other flags of the command (--now, --sort, filters) the output is still ONE well-formed document and nothing else
+	if doc.Records != nil {
+		extra := [][]string{{"--now"}, {"--sort", "desc"}, {"--now", "--pretty"}, {"--entry-type", "range", "--now"}}[len(text)%4]
+		rx := runCLI(env, CLIOpts{Now: mkTime(2021, 3, 4, 12, 0)}, append(append([]string{"json"}, extra...), file)...)
+		o.Evals++
+		if rx.Panic != "" {
+			o.Findings = append(o.Findings, Finding{Kind: "D", What: "klog json " + strings.Join(extra, " ") + " panics: " + rx.Panic, Signature: crashSignature("C20", "panic: "+rx.Panic, data)})
+		} else if rx.Code == 0 {
+			var d2 struct {
+				Records *[]map[string]any `json:"records"`
+				Errors  *[]map[string]any `json:"errors"`
+			}
+			dec2 := json.NewDecoder(strings.NewReader(rx.Stdout))
+			err := dec2.Decode(&d2)
+			rest := ""
+			if err == nil {
+				rest = strings.TrimSpace(rx.Stdout[dec2.InputOffset():])
+			}
+			if err != nil || rest != "" || (d2.Records == nil) == (d2.Errors == nil) {
+				o.Findings = append(o.Findings, Finding{Kind: "D", What: "`klog json " + strings.Join(extra, " ") + "` does not emit exactly one well-formed JSON document", Impl: short(rx.Stdout, 600)})
+			}
+		}
+	}
 	o.Sample = map[string]any{"kind": str(data, "kind"), "pretty": pretty, "json": short(res.Stdout, 200)}
 	return o
 }
